@@ -85,7 +85,7 @@ JOBS = [
     Job('UTMUPS.EPSG_roundtrip', None, ['C04'], lemma=True, replace=['UTMUPS::EncodeEPSG', 'UTMUPS::DecodeEPSG'], const_classes=['MGRS', 'UTMUPS'],
         description='lemma: EPSG encode/decode are mutually inverse (from the two contracts)'),
     # ---- Math primitives (C16)
-    Job('Math.sum.float', 'Math::sum', ['C16', 'C14'], real='float', timeout=14000, tier='thorough', cname='Math_sum', contract_name='Math_sum',
+    Job('Math.sum.float', 'Math::sum', ['C16', 'C14'], real='float', timeout=3600, tier='thorough', cname='Math_sum', contract_name='Math_sum',
         cases=[('near', '!(verif_fabsf(in_u) >= verif_fabsf(in_v)*536870912.0f) && !(verif_fabsf(in_v) >= verif_fabsf(in_u)*536870912.0f)'),
                ('u_dominates', 'verif_fabsf(in_u) >= verif_fabsf(in_v)*536870912.0f'), ('v_dominates', 'verif_fabsf(in_v) >= verif_fabsf(in_u)*536870912.0f')],
         defines=['VERIF_SUM_MAX=1.7014117e38f', 'VERIF_SUM_EPS=5.9604645e-08f', 'VERIF_SUM_EXACT(s,t,u,v)=((double)(s)+(double)(t)==(double)(u)+(double)(v)||(verif_fabsf(u)>=verif_fabsf(v)*536870912.0f&&(s)==(u)&&(t)==(v))||(verif_fabsf(v)>=verif_fabsf(u)*536870912.0f&&(s)==(v)&&(t)==(u)))'],
@@ -93,11 +93,11 @@ JOBS = [
     Job('Math.sum', 'Math::sum', ['C16', 'C14'], timeout=300, exclude_clauses=['post.exact_error', 'post.error_bound', 'post.absorbed'],
         defines=['VERIF_SUM_MAX=8.988465674311579e307', 'VERIF_SUM_EXACT(s,t,u,v)=1', 'VERIF_SUM_EPS=1.1102230246251565e-16'],
         description='TwoSum (double): rounded sum, NaN, zero sign (error term clauses: thorough tier)'),
-    Job('Math.sum.errorterm', 'Math::sum', ['C16'], timeout=14000, tier='thorough', exclude_clauses=['post.exact_error'], sat='cadical',
+    Job('Math.sum.errorterm', 'Math::sum', ['C16'], timeout=3600, tier='thorough', exclude_clauses=['post.exact_error'], sat='cadical',
         defines=['VERIF_SUM_MAX=8.988465674311579e307', 'VERIF_SUM_EXACT(s,t,u,v)=1', 'VERIF_SUM_EPS=1.1102230246251565e-16'],
         description='TwoSum (double): |t| <= ulp(s)/2 (the clauses callers rely on)'),
     Job('Math.AngNormalize', 'Math::AngNormalize', ['C16', 'C13', 'C14'], exclude_clauses=['post.equivalent'], description='angle normalisation (double)'),
-    Job('Math.AngNormalize.equiv', 'Math::AngNormalize', ['C16'], tier='thorough', timeout=7200, description='angle normalisation (double): equivalence modulo 360'),
+    Job('Math.AngNormalize.equiv', 'Math::AngNormalize', ['C16'], tier='thorough', timeout=3600, description='angle normalisation (double): equivalence modulo 360'),
     Job('Math.AngNormalize.float', 'Math::AngNormalize', ['C16'], real='float', cname='Math_AngNormalize', contract_name='Math_AngNormalize',
         defines=['VERIF_ANGNORM_EXACT=8388608.0f', 'VERIF_ANGNORM_WIDE=double'], description='angle normalisation (float)'),
     Job('Math.AngRound', 'Math::AngRound', ['C16', 'C14'], defines=['VERIF_ANGROUND_GAP=6.938893903907228e-18', 'VERIF_ANGROUND_T=double'], description='small-angle rounding (double)'),
@@ -158,7 +158,7 @@ JOBS = [
         description='sum with one more value, the accumulator itself unchanged'),
     # ---- polygon area (C08)
     Job('PolygonArea.transitdirect', 'PolygonAreaT::transitdirect', ['C08', 'C14'], timeout=900, sat='cadical', description='crossing parity for unrolled (direct) edges'),
-    Job('PolygonArea.transitdirect.full', 'PolygonAreaT::transitdirect', ['C08'], timeout=14000, sat='cadical', tier='thorough', defines=['TD_MAXTURNS=1073741824'],
+    Job('PolygonArea.transitdirect.full', 'PolygonAreaT::transitdirect', ['C08'], timeout=3600, sat='cadical', tier='thorough', defines=['TD_MAXTURNS=1073741824'],
         description='crossing parity for direct edges, |lon| < 2^30 turns'),
     Job('PolygonArea.transit', 'PolygonAreaT::transit', ['C08', 'C13', 'C14'], timeout=600, sat='cadical',
         inline=[('Math::AngDiff', dict(arity=2, cname='Math_AngDiff2')), ('Math::AngDiff', dict(arity=3, select=r'T& ?e')), 'Math::sum', 'Math::AngNormalize'],
@@ -269,7 +269,7 @@ JOBS = [
         # the lemma is stated for bilinear interpolation (its harness assumes !_cubic): the twelve stencil reads of the cubic branch are outside it
         allow_unreachable=[r'call of Geoid_rawval at src/Geoid\.cpp:3(3[5-9]|4[0-9])'],
         description='lemma: the values interpolated are the raster values of the cell whatever the cache state / threading mode; cache stays consistent (bilinear)'),
-    Job('Geoid.height.ranges', 'Geoid::height', ['C20'], timeout=14000, unwind=13, sat='cadical', harness='history', enforce=False, tier='thorough', defines=['GEOID_RANGE_LEMMAS'],
+    Job('Geoid.height.ranges', 'Geoid::height', ['C20'], timeout=3600, unwind=13, sat='cadical', harness='history', enforce=False, tier='thorough', defines=['GEOID_RANGE_LEMMAS'],
         replace=[('Geoid::rawval', dict(may_throw=True)), ('Math::AngNormalize', dict(ghost=False)), 'Math::LatFix'],
         description='lemma: cell indices inside the grid and interpolation weights in [0,1] (floating-point range reasoning with symbolic grid size)'),
     # ---- thread safety: const methods that write (C14)
